@@ -3,12 +3,12 @@ buy at ask, sell at bid, flat at mid; a futures-chain key addresses the book of 
 
 Model-based test over histories. A case is
 
-    {"contracts": [descriptor, ...], "view": 0..3, "ops": [op, ...]}
+    {"contracts": [descriptor, ...], "view": 0..3, "observe": "every"|"touched"|"end", "ops": [op, ...]}
 
     descriptor  ["asset", "ETF"|"Stock"|"Index", symbol]
                 ["future", cls, year, month]
-                ["chain", cls, "YYYY-MM", "YYYY-MM"]            FutureChain(cls, start, end)
-                ["chainlist", cls, [[year, month], ...]]         FutureChain(contracts=[...]) (given unsorted)
+                ["chain", cls, "YYYY-MM", "YYYY-MM", k]         FutureChain(cls, start, end, month=k)     k in 0,1,2
+                ["chainlist", cls, [[year, month], ...], k]      FutureChain(contracts=[...], month=k) (given unsorted)
     op          ["q", ci, kk, bid, ask, bid_size|null, ask_size|null, dt]   EventNBBO -> process_EventNBBO
                 ["d", ci, mi, kk, dt]                                       EventContractDiscontinued
                 ["c", seconds]                                              AbstractContract.now = BASE + seconds
@@ -17,8 +17,13 @@ Model-based test over histories. A case is
 Every argument is relative (`ci` is taken modulo the number of contracts, `mi` modulo the number of
 chain members, event time = previous event time + dt) so every sub-list of ops is a valid history.
 The ops are interpreted against a real `Exchange()` and against a dict `symbol -> MBook` that is
-written from the property statement only. After EVERY op the whole exchange is compared with the
-whole model (all known symbols, through keys chosen by `view`).
+written from the property statement only. Reading the exchange is itself an operation with a side
+effect (`Exchange._books` is a defaultdict), so WHEN the comparison happens is part of the case:
+observe="every"   after every op the whole exchange is compared with the whole model (all known
+                  symbols, through keys chosen by `view`);
+observe="touched" after every op only the books of symbols already addressed by an earlier
+                  quote/discontinue/query op are read; the whole comparison happens after the last op;
+observe="end"     nothing is read until the last op (query ops are skipped), then the whole comparison.
 """
 from datetime import datetime, timedelta
 
@@ -40,25 +45,29 @@ KINDS = ["obj", "clone", "str", "chain"]
 HIST_FIELDS = ("time", "bid_price", "ask_price", "mid_price", "bid_size", "ask_size")
 
 RULE = ("Hypothesis draws 2-5 distinct contracts (ETF/Stock/Index assets, ES/ZN/NK/VX futures instances, 0-2 "
-        "FutureChain objects built from start/end or from an explicit unsorted contract list; a plain future may alias "
-        "a chain member) and a list of up to 40 ops quote/discontinue/set_clock/query (st.lists of tuples, one JSON "
+        "FutureChain objects built from start/end or from an explicit unsorted contract list, with month offset 0, 1 "
+        "or 2; a plain future may alias a chain member), an observation mode (compare after every op / only books "
+        "already addressed / only after the last op: reading Exchange creates books, so reads are part of the history) and a list of up to 40 ops quote/discontinue/set_clock/query (st.lists of tuples, one JSON "
         "value). Clock values are drawn around the last trading dates of the futures in the case (-1 day, -1 s, exact, "
-        "+1 s, +1 day) and uniformly, always before the last member's last trading date so that a lead exists. "
+        "+1 s, +1 day) and uniformly, always where the (month-shifted) preferred contract of every chain exists. "
         "Non-trivial = at least 2 distinct symbols received an accepted quote AND at least one discontinuation was "
         "followed by a later quote addressed to the dead book AND at least one query went through a non-identity key "
-        "(new object with the same symbol / symbol string / chain).")
+        "(new object with the same symbol / symbol string / chain; with observe=end, where query ops are skipped, the "
+        "final comparison through clone or string keys counts).")
 ASSUMPTIONS = [
     "oracle = naive dict model symbol -> {alive, bid, ask, sizes, history}; comparisons are exact (NaN-aware ==): the "
     "model performs the same single IEEE operations (ask+bid)/2 and ask-bid, no tolerance is needed",
     "quotes are sound NBBOs: 0 <= bid <= ask <= 1.0001e6, sizes > 0 or omitted (default inf); crossed or NaN quotes "
     "are not generated",
     "the model trusts Future.last_trading_date and the member list of FutureChain(cls, start, end) (both are C19's "
-    "subject); the lead is resolved in the model by a linear scan: earliest last trading date strictly after the clock",
-    "the clock is never set at/after the last trading date of the last member of a chain in the case (no lead exists "
-    "there and the library documents no behaviour); the clock may move backwards (environment reset)",
+    "subject); the lead is resolved in the model by a linear scan: earliest last trading date strictly after the "
+    "clock, then `month` contracts further along the curve (FutureChain(month=k): k=1 prefers the second expiry)",
+    "the clock is never set where the preferred contract of a chain in the case does not exist (at/after the last "
+    "trading date of the (month+1)-th latest member; the library documents no behaviour there); the clock may move "
+    "backwards (environment reset)",
     "EventNBBO.contract is always a contract object (the constructor calls contract.verify); symbol strings are only "
     "used as Exchange keys. Discontinuation events address assets, futures or a named chain member, never a chain key",
-    "FutureChain(month=...) other than the default 0 is not exercised",
+    "a discontinuation is effective whether or not the exchange has ever been asked for that contract's book",
 ]
 
 
@@ -98,7 +107,10 @@ class Member:
 
 
 class MContract:
-    __slots__ = ("kind", "desc", "obj", "symbol", "members", "ltd")
+    __slots__ = ("kind", "desc", "obj", "symbol", "members", "ltd", "month")
+
+    def lead(self, clock):
+        return model_lead(self.members, clock, self.month)
 
 
 def plain(x):
@@ -106,12 +118,28 @@ def plain(x):
     return datetime(x.year, x.month, x.day, x.hour, x.minute, x.second, x.microsecond)
 
 
-def model_lead(members, clock):
+def model_lead(members, clock, month=0):
+    """Preferred contract of a chain: among the members whose last trading date is strictly after the clock,
+    the one with the earliest date (month=0), the second earliest (month=1), ...; None if there is none."""
+    later = [mem for mem in members if mem.ltd > clock]
+    for _ in range(month):
+        if not later:
+            return None
+        first = later[0]
+        for mem in later:
+            if mem.ltd < first.ltd:
+                first = mem
+        later = [mem for mem in later if mem is not first]
     best = None
-    for mem in members:
-        if mem.ltd > clock and (best is None or mem.ltd < best.ltd):
+    for mem in later:
+        if best is None or mem.ltd < best.ltd:
             best = mem
     return best
+
+
+def chain_month(desc):
+    n = 5 if desc[0] == "chain" else 4
+    return int(desc[n - 1]) if len(desc) >= n else 0
 
 
 def same(a, b):
@@ -136,12 +164,14 @@ def make_future(cls, year, month):
 
 
 def make_chain(desc, reverse=False):
+    k = chain_month(desc)
+    kw = {"month": k} if k else {}       # month=0 is also exercised through the default
     if desc[0] == "chain":
-        return C.FutureChain(getattr(C, desc[1]), desc[2], desc[3])
+        return C.FutureChain(getattr(C, desc[1]), desc[2], desc[3], **kw)
     items = list(desc[2])
     if reverse:
         items = items[::-1]
-    return C.FutureChain(contracts=[make_future(desc[1], y, m) for y, m in items])
+    return C.FutureChain(contracts=[make_future(desc[1], y, m) for y, m in items], **kw)
 
 
 def build_contract(desc):
@@ -151,6 +181,7 @@ def build_contract(desc):
     mc.members = None
     mc.symbol = None
     mc.ltd = None
+    mc.month = chain_month(desc) if mc.kind == "chain" else 0
     if desc[0] == "asset":
         mc.obj = make_asset(desc[1], desc[2])
         mc.symbol = desc[2]
@@ -270,9 +301,11 @@ def check_vectors(res, ex, keys, mbooks, signs, where):
     return ok
 
 
-def check_all(ctx, res, step, where):
-    """Whole exchange against whole model."""
-    syms = ctx.syms
+def check_all(ctx, res, step, where, only=None):
+    """Whole exchange (or the books of the symbols in `only`) against the model."""
+    syms = ctx.syms if only is None else [s for s in ctx.syms if s in only]
+    if not syms:
+        return True
     keys = []
     for i, s in enumerate(syms):
         mode = ctx.view if ctx.view < 3 else (i + step) % 3
@@ -293,7 +326,8 @@ def chain_variant(mc, step):
         return make_chain(mc.desc)
     if mc.desc[0] == "chain":
         # same members given explicitly, latest first (the constructor has to sort them)
-        return C.FutureChain(contracts=[make_future(m.cls, m.year, m.month) for m in mc.members[::-1]])
+        return C.FutureChain(contracts=[make_future(m.cls, m.year, m.month) for m in mc.members[::-1]],
+                             month=mc.month)
     return make_chain(mc.desc, reverse=(step % 2 == 1))
 
 
@@ -301,7 +335,7 @@ def resolve_query(ctx, mc, kind, step):
     """-> (key, symbol the key must address, kind actually used)."""
     clock = ctx.clock
     if mc.kind == "chain":
-        lead = model_lead(mc.members, clock)
+        lead = mc.lead(clock)
         if kind == "obj":
             return mc.obj, lead.symbol, "obj-chain"
         if kind == "clone":   # a new Future object carrying the lead's symbol
@@ -318,7 +352,7 @@ def resolve_query(ctx, mc, kind, step):
         if kind == "chain":
             for other in ctx.mcs:
                 if other.kind == "chain":
-                    lead = model_lead(other.members, clock)
+                    lead = other.lead(clock)
                     if lead is not None and lead.symbol == mc.symbol:
                         return other.obj, mc.symbol, "chain"
             if mc.ltd > clock:
@@ -348,6 +382,9 @@ def _run(case, res):
     ctx = Ctx()
     ctx.mcs = [build_contract(d) for d in case["contracts"]]
     ctx.view = int(case.get("view", 3)) % 4
+    observe = case.get("observe", "every")
+    if observe not in ("every", "touched", "end"):
+        raise ValueError("unknown observation mode %r" % (observe,))
     n = len(ctx.mcs)
     ctx.ex = Exchange()
     ctx.model = {}
@@ -375,11 +412,14 @@ def _run(case, res):
             register(mc.symbol, mc.obj, make_future(d[1], d[2], d[3]))
         else:
             has_chain = True
-            last = max(m.ltd for m in mc.members)
+            # the preferred contract exists while the clock is before the (month+1)-th latest last trading date
+            last = sorted(m.ltd for m in mc.members)[len(mc.members) - 1 - mc.month]
             clock_limit = last if clock_limit is None else min(clock_limit, last)
+            if mc.month:
+                res.tag("chain-month-%d" % mc.month)
             for m in mc.members:
                 register(m.symbol, make_future(m.cls, m.year, m.month), make_future(m.cls, m.year, m.month))
-    res.tag("contracts-%d" % n, "view-%d" % ctx.view)
+    res.tag("contracts-%d" % n, "view-%d" % ctx.view, "observe-" + observe)
     if has_chain:
         res.tag("has-chain")
 
@@ -388,7 +428,9 @@ def _run(case, res):
     dead_then_quoted = False
     nonidentity_query = False
     chain_leads = {}          # contract index -> lead symbol at the previous chain-key quote
-    if not check_all(ctx, res, 0, "before any op"):
+    touched = set()           # symbols addressed so far by a quote, a discontinuation or a query
+    unseen_dead = set()       # symbols discontinued before the exchange had ever been asked for their book
+    if observe == "every" and not check_all(ctx, res, 0, "before any op"):
         return
 
     for step, op in enumerate(case["ops"]):
@@ -400,10 +442,12 @@ def _run(case, res):
             mc = ctx.mcs[ci]
             t_ev = t_ev + timedelta(seconds=dt)
             if mc.kind == "chain":
-                lead = model_lead(mc.members, ctx.clock)
+                lead = mc.lead(ctx.clock)
                 sym = lead.symbol
                 contract = mc.obj if kk == 0 else chain_variant(mc, step)
                 res.tag("quote-via-chain")
+                if mc.month:
+                    res.tag("quote-via-chain-month-offset")
                 for m in mc.members:
                     if m.ltd == ctx.clock:
                         res.tag("chain-quote-at-last-trading-instant")
@@ -426,6 +470,9 @@ def _run(case, res):
                 kwargs["ask_size"] = asz
             ctx.ex.process_EventNBBO(EventNBBO(time=t_ev, contract=contract, bid_price=bid, ask_price=ask, **kwargs))
             mb = ctx.model[sym]
+            touched.add(sym)
+            if sym in unseen_dead:
+                res.tag("discontinued-unseen-then-quoted")
             if mb.alive:
                 mb.bid, mb.ask = bid, ask
                 mb.bsz = INF if bsz is None else bsz
@@ -448,7 +495,7 @@ def _run(case, res):
                 m = mc.members[mi % len(mc.members)]
                 sym = m.symbol
                 contract = make_future(m.cls, m.year, m.month)
-                if model_lead(mc.members, ctx.clock).symbol == sym:
+                if mc.lead(ctx.clock).symbol == sym:
                     res.tag("lead-discontinued")
             elif mc.kind == "future":
                 sym = mc.symbol
@@ -458,6 +505,10 @@ def _run(case, res):
                 contract = mc.obj if kk == 0 else make_asset(mc.desc[1], mc.desc[2], other=True)
             ctx.ex.process_EventContractDiscontinued(EventContractDiscontinued(time=t_ev, contract=contract))
             mb = ctx.model[sym]
+            if observe != "every" and sym not in touched:
+                unseen_dead.add(sym)
+                res.tag("discontinued-unseen")
+            touched.add(sym)
             if not mb.alive:
                 res.tag("discontinued-twice")
             elif mb.hist:
@@ -479,7 +530,11 @@ def _run(case, res):
         elif code == "k":
             _, ci, kind, q = op
             mc = ctx.mcs[ci % n]
+            if observe == "end":
+                res.tag("query-skipped-observe-end")
+                continue
             key, sym, used = resolve_query(ctx, mc, KINDS[kind % 4], step)
+            touched.add(sym)
             res.tag("key-" + used)
             if used != "obj":
                 nonidentity_query = True
@@ -495,18 +550,27 @@ def _run(case, res):
                     ok = False
             ok = check_nan_sign(res, ctx.ex[key], w) and ok
             # the same key inside the vector getters, next to the canonical key of another symbol
-            other = ctx.syms[(ctx.syms.index(sym) + 1) % len(ctx.syms)]
+            pool = ctx.syms if observe == "every" else [s for s in ctx.syms if s in touched]
+            other = pool[(pool.index(sym) + 1) % len(pool)]
             ok = check_vectors(res, ctx.ex, [key, ctx.keysets[0][other], key], [mb, ctx.model[other], mb],
                                [q, -q, 0.0], w) and ok
             if not ok:
                 return
         else:
             raise ValueError("unknown op %r" % (op,))
-        if not check_all(ctx, res, step + 1, where):
-            return
+        if observe == "every":
+            if not check_all(ctx, res, step + 1, where):
+                return
+        elif observe == "touched":
+            if not check_all(ctx, res, step + 1, where, only=touched):
+                return
 
+    if observe != "every" and not check_all(ctx, res, len(case["ops"]), "after the last op (first full read)"):
+        return
     if len(quoted) >= 2:
         res.tag("two-or-more-symbols-quoted")
+    if observe == "end" and ctx.view != 0:
+        nonidentity_query = True      # the only read of the history goes through clones / strings
     res.nontrivial = len(quoted) >= 2 and dead_then_quoted and nonidentity_query
 
 
@@ -517,6 +581,7 @@ POOL_ASSETS = [["asset", "ETF", "SPY"], ["asset", "ETF", "IEF"], ["asset", "Stoc
 POOL_FUTURES = [["future", "ES", 2019, 6], ["future", "ES", 2019, 9], ["future", "ES", 2019, 12],
                 ["future", "ZN", 2019, 6], ["future", "ZN", 2019, 9], ["future", "NK", 2019, 9],
                 ["future", "VX", 2019, 7], ["future", "VX", 2019, 8]]
+# month (0, 1 or 2, below the number of members) is appended by the generator
 POOL_CHAINS = [["chain", "ES", "2019-03", "2020-06"], ["chain", "ES", "2019-06", "2019-12"],
                ["chain", "ZN", "2019-03", "2020-03"], ["chain", "VX", "2019-05", "2019-12"],
                ["chainlist", "ES", [[2019, 9], [2019, 6], [2020, 3]]],
@@ -556,6 +621,7 @@ def histories(draw, tier="quick"):
     total = draw(st.integers(2, 5))
     nchains = min(nchains, total - 1)
     chains = draw(st.lists(st.sampled_from(POOL_CHAINS), min_size=nchains, max_size=nchains, unique_by=repr))
+    chains = [c + [min(draw(st.sampled_from([0, 0, 1, 2])), len(_boundaries(c)) - 1)] for c in chains]
     others = draw(st.lists(st.sampled_from(POOL_FUTURES + POOL_ASSETS), min_size=total - nchains,
                            max_size=total - nchains, unique_by=repr))
     contracts = draw(st.permutations(chains + others))
@@ -566,7 +632,8 @@ def histories(draw, tier="quick"):
     for d in contracts:
         b = _boundaries(d)
         if d[0] in ("chain", "chainlist"):
-            limit = b[-1] if limit is None else min(limit, b[-1])
+            last = b[len(b) - 1 - chain_month(d)]
+            limit = last if limit is None else min(limit, last)
         marks.extend(b)
     if limit is None:
         limit = 600 * 86400
@@ -593,7 +660,11 @@ def histories(draw, tier="quick"):
     lo = draw(st.sampled_from([0, 6, 12, 20, 30]))
     ops = draw(st.lists(op, min_size=lo, max_size=40))
     view = draw(st.sampled_from([3, 0, 1, 2, 3]))
-    return {"contracts": list(contracts), "view": view, "ops": ops}
+    observe = draw(st.sampled_from(["every", "touched", "end"]))
+    if observe != "every":
+        # a contract is often delisted before the exchange was ever asked about it
+        ops = draw(st.lists(disc, max_size=2)) + ops
+    return {"contracts": list(contracts), "view": view, "observe": observe, "ops": ops}
 
 
 PARTS = [Part("histories", strategy=lambda tier: histories(tier), run=run_history, quick=6000, thorough=80000)]
